@@ -664,6 +664,11 @@ def knob_rule(fi, param, rule="KNOB", forward_ok=True):
         stored, mutated, fresh = set(), set(), set()
         unknown = None
         for st in block:
+            # `it = tqdm(it, ..)`: the progress wrapper yields the elements of what it wraps
+            if isinstance(st, ast.Assign) and len(st.targets) == 1 and isinstance(st.targets[0], ast.Name) and isinstance(st.value, ast.Call) and \
+                    dotted(st.value.func) in ("tqdm", "tqdm.tqdm", "tqdm.auto.tqdm") and st.value.args and isinstance(st.value.args[0], ast.Name) and \
+                    st.value.args[0].id == st.targets[0].id:
+                continue
             for x in ast.walk(st):
                 if isinstance(x, ast.Name) and isinstance(x.ctx, ast.Store):
                     stored.add(x.id)
